@@ -236,7 +236,7 @@ def main(argv=None):
             "violations": n_viol,
         }
         evdir = OUT / "evidence"
-        evdir.mkdir(exist_ok=True)
+        evdir.mkdir(parents=True, exist_ok=True)
         (evdir / f"{prop}.json").write_text(json.dumps(ev, indent=1, sort_keys=False))
 
     for line in known_lines:
